@@ -3956,9 +3956,7 @@ class Device(utils.CompositeEventEmitter):
             self.le_connecting = True
 
             if timeout is None:
-                return await utils.cancel_on_event(
-                    self, Device.EVENT_FLUSH, pending_connection
-                )
+                return await self.cancel_on_flush(pending_connection)
 
             try:
                 return await asyncio.wait_for(
@@ -3970,9 +3968,7 @@ class Device(utils.CompositeEventEmitter):
                 )
 
                 try:
-                    return await utils.cancel_on_event(
-                        self, Device.EVENT_FLUSH, pending_connection
-                    )
+                    return await self.cancel_on_flush(pending_connection)
                 except core.ConnectionError as error:
                     raise core.TimeoutError() from error
         finally:
@@ -4054,9 +4050,7 @@ class Device(utils.CompositeEventEmitter):
 
             # Wait for the connection process to complete
             if timeout is None:
-                return await utils.cancel_on_event(
-                    self, Device.EVENT_FLUSH, pending_connection
-                )
+                return await self.cancel_on_flush(pending_connection)
 
             try:
                 return await asyncio.wait_for(
@@ -4068,9 +4062,7 @@ class Device(utils.CompositeEventEmitter):
                 )
 
                 try:
-                    return await utils.cancel_on_event(
-                        self, Device.EVENT_FLUSH, pending_connection
-                    )
+                    return await self.cancel_on_flush(pending_connection)
                 except core.ConnectionError as error:
                     raise core.TimeoutError() from error
         finally:
@@ -4194,9 +4186,7 @@ class Device(utils.CompositeEventEmitter):
 
         try:
             # Wait for a request or a completed connection
-            pending_request = utils.cancel_on_event(
-                self, Device.EVENT_FLUSH, pending_request_fut
-            )
+            pending_request = self.cancel_on_flush(pending_request_fut)
             result = await (
                 asyncio.wait_for(pending_request, timeout)
                 if timeout
@@ -4266,9 +4256,7 @@ class Device(utils.CompositeEventEmitter):
             )
 
             # Wait for connection complete
-            return await utils.cancel_on_event(
-                self, Device.EVENT_FLUSH, pending_connection
-            )
+            return await self.cancel_on_flush(pending_connection)
 
         finally:
             self.remove_listener(self.EVENT_CONNECTION, on_connection)
@@ -4339,9 +4327,7 @@ class Device(utils.CompositeEventEmitter):
                     connection_handle=connection.handle, reason=reason
                 )
             )
-            return await utils.cancel_on_event(
-                self, Device.EVENT_FLUSH, pending_disconnection
-            )
+            return await self.cancel_on_flush(pending_disconnection)
         finally:
             connection.remove_listener(
                 connection.EVENT_DISCONNECTION, pending_disconnection.set_result
@@ -4777,7 +4763,7 @@ class Device(utils.CompositeEventEmitter):
             else:
                 raise ValueError('invalid transport')
 
-            return await utils.cancel_on_event(self, Device.EVENT_FLUSH, peer_address)
+            return await self.cancel_on_flush(peer_address)
         finally:
             if listener is not None and event_name is not None:
                 self.remove_listener(event_name, listener)
@@ -4829,7 +4815,7 @@ class Device(utils.CompositeEventEmitter):
             if not self.scanning:
                 await self.start_scanning(filter_duplicates=True)
 
-            return await utils.cancel_on_event(self, Device.EVENT_FLUSH, peer_address)
+            return await self.cancel_on_flush(peer_address)
         finally:
             if listener is not None:
                 self.remove_listener(event_name, listener)
@@ -5050,7 +5036,7 @@ class Device(utils.CompositeEventEmitter):
             )
 
             # Wait for the result
-            return await utils.cancel_on_event(self, Device.EVENT_FLUSH, pending_name)
+            return await self.cancel_on_flush(pending_name)
 
     # [LE only]
     @utils.experimental('Only for testing.')
@@ -5609,6 +5595,17 @@ class Device(utils.CompositeEventEmitter):
             )
             return await complete_future
 
+    def cancel_on_flush(self, awaitable: Awaitable[_T]) -> Awaitable[_T]:
+        """
+        Helper method to call `utils.cancel_on_event` for the 'flush' event
+        """
+        if self.host.transport_lost:
+            # The flush has already occurred, the event will not come
+            future = asyncio.ensure_future(awaitable)
+            future.cancel('abort: transport lost.')
+            return future
+        return utils.cancel_on_event(self, Device.EVENT_FLUSH, awaitable)
+
     @host_event_handler
     def on_flush(self):
         self.emit(self.EVENT_FLUSH)
@@ -5631,9 +5628,7 @@ class Device(utils.CompositeEventEmitter):
                 link_key_type=key_type,
             )
 
-            utils.cancel_on_event(
-                self, Device.EVENT_FLUSH, self.update_keys(str(bd_addr), pairing_keys)
-            )
+            self.cancel_on_flush(self.update_keys(str(bd_addr), pairing_keys))
 
         if connection := self.find_connection_by_bd_addr(
             bd_addr, transport=PhysicalTransport.BR_EDR
@@ -5905,9 +5900,7 @@ class Device(utils.CompositeEventEmitter):
         if advertising_set.auto_restart:
             connection.once(
                 Connection.EVENT_DISCONNECTION,
-                lambda _: utils.cancel_on_event(
-                    self, Device.EVENT_FLUSH, advertising_set.start()
-                ),
+                lambda _: self.cancel_on_flush(advertising_set.start()),
             )
 
         self.emit(self.EVENT_CONNECTION, connection)
@@ -6041,9 +6034,7 @@ class Device(utils.CompositeEventEmitter):
                 advertiser = self.legacy_advertiser
                 connection.once(
                     Connection.EVENT_DISCONNECTION,
-                    lambda _: utils.cancel_on_event(
-                        self, Device.EVENT_FLUSH, advertiser.start()
-                    ),
+                    lambda _: self.cancel_on_flush(advertiser.start()),
                 )
             else:
                 self.legacy_advertiser = None
